@@ -506,6 +506,31 @@ def okCall (env : Env) (f : Imm) (args : List Imm) (ty : Ty) : Bool :=
       | some _ => true
       | none => okImm env f
 
+/-- the Go conversion that `dyn_data_expr` wraps around a literal of a numeric type -/
+def convName : Ty → Option String
+  | .int 8 true => some "int8"
+  | .int 16 true => some "int16"
+  | .int 32 true => some "int32"
+  | .int 64 true => some "int64"
+  | .int 8 false => some "uint8"
+  | .int 16 false => some "uint16"
+  | .int 32 false => some "uint32"
+  | .int 64 false => some "uint64"
+  | .float 32 => some "float32"
+  | .float 64 => some "float64"
+  | _ => none
+
+/-- `dyn_data_expr`: the value stored in the `data any` field of a trait object.  A numeric literal has no type of its own
+    in Go — stored as it is it would take the default type (`int`, `float64`) and the wrapper's assertion to the implementing
+    type would fail — so it is converted explicitly: `int32(42)` -/
+def dynDataExpr (env : Env) (e : Imm) : GExpr :=
+  match e with
+  | .prim _ ty =>
+    (match convName ty with
+     | some n => .call (goTy ty) (.var n (.func [goTy ty] (goTy ty))) [compileImm env e]
+     | none => compileImm env e)
+  | _ => compileImm env e
+
 /-- `compile_cexpr`; the control-flow forms (which the statement lowering handles before) and `EGo`
     panic in the Rust and give a placeholder here -/
 def compileCExpr (env : Env) : CExpr → GExpr
@@ -524,7 +549,7 @@ def compileCExpr (env : Env) : CExpr → GExpr
   | .bin op l r ty => .bin (gBin op) (goTy ty) (compileImm env l) (compileImm env r)
   | .toDyn tr forTy e ty =>
     .slit (goTy ty)
-      [.mk "data" (compileImm env e),
+      [.mk "data" (dynDataExpr env e),
        .mk "vtable" (.call (vtablePtrTy tr) (.var (dynVtableCtorName tr forTy) (.func [] (vtablePtrTy tr))) [])]
   | .dynCall tr m recv args ty =>
     let sig := (((traitMethodSigs env tr).getD []).find? (·.1 == m)).getD (m, [], .tvar 0)
